@@ -20,11 +20,12 @@ RECURSIVE Chain(_, _, _, _)
 Chain(st, steps, i, B) ==
     IF i > Len(steps) THEN <<>>
     ELSE LET s == steps[i]
-             st0 == SetAll(st, s.set, 1)
-             r == Apply(st0, s, B)
-         IN <<[vals |-> r.st.vals, addc |-> r.st.addc, subc |-> r.st.subc, br |-> r.br]>> \o Chain(r.st, steps, i + 1, B)
+             st0 == [SetAll(st, s.set, 1) EXCEPT !.inp = [bits |-> s.inp, pos |-> 0], !.out = <<>>]
+             r == Apply(st0, s, s.B)
+         IN <<[vals |-> r.st.vals, addc |-> r.st.addc, subc |-> r.st.subc, br |-> r.br,
+               out |-> r.st.out, inused |-> r.st.inp.pos, dontcare |-> r.dontcare]>> \o Chain(r.st, steps, i + 1, B)
 
 Emit == LET R == Tr[tid]
-            st0 == [vals |-> [x \in {R.vars[k] : k \in 1..Len(R.vars)} |-> IZero], addc |-> 0, subc |-> 0]
+            st0 == [vals |-> [x \in {R.vars[k] : k \in 1..Len(R.vars)} |-> IZero], addc |-> 0, subc |-> 0, inp |-> [bits |-> <<>>, pos |-> 0], out |-> <<>>]
         IN PrintT("@@P" \o ToJson([tid |-> tid, post |-> Chain(st0, R.steps, 1, R.B)]))
 =============================================================================
